@@ -223,6 +223,7 @@ func (e *env) child() *env {
 type Interp struct {
 	Files   map[string][]Node // templates by name (for include/import)
 	Context map[string]V      // caller context merged over globals
+	Globals map[string]V      // the set's globals (visible in every template of the set, also under `include ... only`)
 	// IfChangedPerLoop selects the alternative reading: ifchanged state is reset whenever the enclosing loop starts again.
 	IfChangedPerLoop bool
 	MaxMacroDepth    int
@@ -773,12 +774,18 @@ func (it *Interp) execNode(n Node, e *env, b *strings.Builder) error {
 		}
 		body, ok := it.Files[name]
 		if !ok {
+			body, ok = it.Files["/"+name]
+		}
+		if !ok {
 			if n.IfExists {
 				return nil
 			}
 			return &ErrExec{"include of a missing file"}
 		}
 		ctx := map[string]V{}
+		for k, v := range it.Globals {
+			ctx[k] = v
+		}
 		if !n.Only {
 			for k, v := range it.Context {
 				ctx[k] = v
@@ -794,7 +801,7 @@ func (it *Interp) execNode(n Node, e *env, b *strings.Builder) error {
 			}
 			ctx[p.Name] = v
 		}
-		sub := &Interp{Files: it.Files, Context: ctx, autoescape: true, MaxMacroDepth: it.MaxMacroDepth,
+		sub := &Interp{Files: it.Files, Context: ctx, Globals: it.Globals, autoescape: true, MaxMacroDepth: it.MaxMacroDepth,
 			cyclePos: it.cyclePos, ifchLast: it.ifchLast, ifchBody: it.ifchBody, ifchSeen: it.ifchSeen, depth: it.depth}
 		s, err := sub.Render(body)
 		if err != nil {
@@ -803,6 +810,9 @@ func (it *Interp) execNode(n Node, e *env, b *strings.Builder) error {
 		b.WriteString(s)
 	case Import:
 		body, ok := it.Files[n.File]
+		if !ok {
+			body, ok = it.Files["/"+n.File]
+		}
 		if !ok {
 			return &ErrExec{"import of a missing file"}
 		}
